@@ -12,7 +12,7 @@ build_variant() {
   local v="$1" out="$ROOT/bin/vcheck"
   [ "$v" != plain ] && out="$ROOT/bin/vcheck-$v"
   cp "${VERIF_REPO:-/repo}/go.sum" "$ROOT/go.sum" 2>/dev/null
-  if [ ! -x "$ROOT/bin/instr" ] || [ "$ROOT/cmd/instr/main.go" -nt "$ROOT/bin/instr" ]; then
+  if [ ! -x "$ROOT/bin/instr" ] || [ -n "$(find "$ROOT/cmd/instr" -name '*.go' -newer "$ROOT/bin/instr")" ]; then
     go build -o "$ROOT/bin/instr" ./cmd/instr 2>"$ROOT/.work/build.log" || { cat "$ROOT/.work/build.log" >&2; return 2; }
   fi
   # "race" is the sched overlay compiled with the Go race detector (free-running cross-check of C16)
